@@ -1,4 +1,5 @@
 import SaModel.Backend.Adapters
+import SaModel.Backend.BuildCore
 import SaModel.Spec.Decode
 import SaModel.Generated.ArrowVersions
 import SaModel.Lemmas.C19MapM
@@ -278,6 +279,69 @@ theorem backends_agree (core : Core OB Items D Out) (cvA : Conv AF AA) (cvB : Co
     obtain ⟨arrays', hm', _, hcb⟩ := backend_content core cvB decodeB hB bfs fs hfb items bs hb
     rw [hm] at hm'; cases hm'
     rw [hca, hcb]
+
+/-- The adapter model's `to_marrow`, instantiated with the builder model (`buildCore`), is `SaModel.Build.toMarrow` —
+the function the build-side theorems (C01, C03, C05) are about; by `backends_agree` what they say about the marrow
+arrays carries over to every back end's arrays (under `hA`). -/
+theorem marrow_entry_is_build_model (ext : SaModel.Build.Ext) {D Out : Type} (dn : List Field → List Arr → R D) (de : D → R Out)
+    (fields : List Field) (rows : List SVal) :
+    Backend.toMarrow (buildCore ext dn de) fields rows = SaModel.Build.toMarrow ext fields rows := by
+  simp only [Backend.toMarrow, ArrayBuilder.fromMarrow, ArrayBuilder.new, serializeInto, ArrayBuilder.toMarrow,
+    ArrayBuilder.buildArrays, buildCore, SaModel.Build.toMarrow, bind, Except.bind, pure, Except.pure]
+  cases SaModel.Build.newRoot fields with
+  | error e => rfl
+  | ok root =>
+    simp only []
+    cases List.foldlM (SaModel.Build.push ext) root rows with
+    | error e => rfl
+    | ok root' =>
+      simp only []
+      cases SaModel.Build.buildArrays ext root' with
+      | error e => rfl
+      | ok p => rfl
+
+
+/-! ### the `ArrayBuilder` constructors and finishers (any combination, also across back ends) -/
+
+/-- every constructor is `from_marrow` after the field conversion; every finisher is `build_arrays` followed by the
+array conversion of the back end it finishes into — whatever family's fields created the builder -/
+theorem builder_paths_factor (core : Core OB Items D Out) (cv : Conv AF AA) (cv' : Conv BF BA)
+    (afs : List AF) (self : ArrayBuilder OB) :
+    ArrayBuilder.fromArrow core cv afs = (afs.mapM cv.fieldToMarrow >>= ArrayBuilder.fromMarrow core) ∧
+    ArrayBuilder.fromArrow2 core cv afs = ArrayBuilder.fromArrow core cv afs ∧
+    self.toMarrow core = self.buildArrays core ∧
+    self.toArrow core cv' =
+      (self.buildArrays core >>= fun p => p.1.mapM cv'.arrayOfMarrow >>= fun arrays => pure (arrays, p.2)) ∧
+    self.toArrow2 core cv' = self.toArrow core cv' :=
+  ⟨rfl, rfl, rfl, rfl, rfl⟩
+
+/-- two finishers applied to the same builder state hold the same logical content (under `hA`, `hB`) -/
+theorem builder_finishers_agree (core : Core OB Items D Out) (cvA : Conv AF AA) (cvB : Conv BF BA)
+    (decodeA : AA → List (R LVal)) (decodeB : BA → List (R LVal))
+    (hA : ∀ a aa, cvA.arrayOfMarrow a = .ok aa → decodeA aa = Spec.decodeAll a)
+    (hB : ∀ a ba, cvB.arrayOfMarrow a = .ok ba → decodeB ba = Spec.decodeAll a)
+    (self sa sb : ArrayBuilder OB) (as : List AA) (bs : List BA)
+    (ha : self.toArrow core cvA = .ok (as, sa)) (hb : self.toArrow2 core cvB = .ok (bs, sb)) :
+    as.map decodeA = bs.map decodeB ∧ sa = sb ∧
+    ∃ arrays, self.toMarrow core = .ok (arrays, sa) ∧ as.map decodeA = arrays.map Spec.decodeAll := by
+  simp only [ArrayBuilder.toArrow, ArrayBuilder.toArrow2, ArrayBuilder.toMarrow, bind, Except.bind, pure, Except.pure] at ha hb ⊢
+  cases hbuild : self.buildArrays core with
+  | error e => simp [hbuild] at ha
+  | ok p =>
+    simp only [hbuild] at ha hb ⊢
+    cases hca : List.mapM cvA.arrayOfMarrow p.1 with
+    | error e => simp [hca] at ha
+    | ok as' =>
+      cases hcb : List.mapM cvB.arrayOfMarrow p.1 with
+      | error e => simp [hcb] at hb
+      | ok bs' =>
+        simp only [hca, Except.ok.injEq, Prod.mk.injEq] at ha
+        simp only [hcb, Except.ok.injEq, Prod.mk.injEq] at hb
+        obtain ⟨rfl, rfl⟩ := ha
+        obtain ⟨rfl, rfl⟩ := hb
+        have e1 := mapM_ok_map _ _ _ hA _ _ hca
+        have e2 := mapM_ok_map _ _ _ hB _ _ hcb
+        exact ⟨by rw [e1, e2], rfl, p.1, rfl, e1⟩
 
 /-! ### backends_agree: deserialization -/
 
